@@ -284,6 +284,20 @@ func Materialise(w World, root string) (*Built, error) {
 				return nil, err
 			}
 			continue
+		case "symlink-to-fifo":
+			pipe := filepath.Join(root, "pipe-"+filepath.Base(p))
+			if err := mkfifo(pipe); err != nil {
+				return nil, err
+			}
+			if err := os.Symlink(pipe, p); err != nil {
+				return nil, err
+			}
+			continue
+		case "symlink-to-dir":
+			if err := os.Symlink(root, p); err != nil {
+				return nil, err
+			}
+			continue
 		}
 		fb, err := b.FileBytes(f)
 		if err != nil {
